@@ -193,7 +193,7 @@ def run_shard(spec, emit):
     pool = numeric_grammar() + string_grammar()
     primitives = [s for i, s in enumerate(pool) if i % nshards == shard]
     extra = [s for s, _ in gen.PRIMITIVES + gen.ARRAYS]
-    deadline = time.monotonic() + (85 if tier == "quick" else 2400)
+    deadline = time.monotonic() + (85 if tier == "quick" else 300)
     mode_sets = [[GenerationMode.POSITIVE], [GenerationMode.NEGATIVE], [GenerationMode.POSITIVE, GenerationMode.NEGATIVE]]
     samples = 0
     jobs = []
